@@ -104,6 +104,10 @@ def run_case(case, ctx, bm):
         # range where a central difference resolves 1e-6.  Same set of twists, parametrised at the plate: V = Ad(X) V_plate.
         V = se3.Ad(X) @ V
         ctx.cls("twist_parametrised_at_plate")
+    # the relation is linear in the twist: scale it so that one step moves the plate by at most ~h platform radii (a difference
+    # quotient of a small fast platform otherwise carries h^4 truncation errors above the 1e-6 it is compared at)
+    Vb = se3.Ad(se3.inv(X)) @ V
+    V = V / max(1.0, float(np.linalg.norm(Vb[:3])), float(np.linalg.norm(Vb[3:])) / float(g["rb"]))
     h = case["h"]
     B = model.B
 
